@@ -226,14 +226,14 @@ Definition run_roundtrip (rc : rtcase) : pyval :=
   match rc with
   | None => o_str "oracle-only"
   | Some (vt, dynamic, vs, fs, kw, ops) =>
-      match ctor vt w0 dynamic fs kw with
+      match ctor vt w0 dynamic vs fs kw with
       | (w1, root, OOk) =>
           let '(w2, final) :=
-            (fix go (ops : list (list pstep * cop)) (w : world) (root : cfg) : world * cfg :=
+            (fix go (ops : list (list pstep * xop leaf)) (w : world) (root : cfg) : world * cfg :=
                match ops with
                | [] => (w, root)
                | (ps, o) :: r =>
-                   let '(w', root', _) := at_path leaf lvalidate lto_python ldefault l_callable lflag (vrun vt) ps w [] root dynamic vs fs o in
+                   let '(w', root', _) := at_path_x leaf lvalidate lto_python ldefault l_callable lflag (vrun vt) ps w [] root dynamic vs fs o in
                    go r w' root'
                end) ops w1 root in
           let tr := to_tree leaf lto_basic l_sensitive py_strlen None fs final in
